@@ -15,7 +15,7 @@ use std::panic::AssertUnwindSafe;
 pub static META: PropertyMeta = PropertyMeta {
     id: "C03",
     level: "exploration",
-    rule: "SwGen programs x variants of the debug pass pipeline: each registered transform inserted alone, each preceded by inline / mem2reg, random sequences of 2..8 transforms, and the release (O1) group with one pass removed, duplicated or two adjacent passes swapped - inserted at a random position before the mandatory Fuel lowering passes; baseline and variant binaries run on 10 input vectors; an evaluation = one (program, variant); non-trivial = an inserted pass modified the IR, the variant bytecode differs from the baseline and at least one execution returned normally; distinct = hash of (source, variant)",
+    rule: "SwGen programs x variants of the debug pass pipeline: each registered transform inserted alone, each preceded by inline / mem2reg, random sequences of 2..8 transforms, the whole release (O1) group (a difference is attributed by leaving one pass out at a time), and the O1 group with one pass removed, duplicated or two adjacent passes swapped - inserted at a random position before the mandatory Fuel lowering passes; baseline and variant binaries run on 10 input vectors; an evaluation = one (program, variant); non-trivial = an inserted pass modified the IR, the variant bytecode differs from the baseline and at least one execution returned normally; distinct = hash of (source, variant)",
     assumptions: &[
         "fuel-vm 0.66 is the trusted execution substrate",
         "removal of invalid arithmetic whose result is unobservable is tolerated (documented undefined behaviour), arbitrated by the reference interpreter",
@@ -89,7 +89,14 @@ fn gen_variant(rng: &mut rand::rngs::StdRng, k: u64, res: &mut ShardResult) -> (
     let pick = |rng: &mut rand::rngs::StdRng| TRANSFORMS[rng.gen_range(1..TRANSFORMS.len())].to_string();
     // default debug list: lower-init-aggr, fn-dedup-debug, inline, globals-dce, dce, <mandatory...>
     let pos = rng.gen_range(1..=5);
-    let extra = match k % 5 {
+    let extra = match k % 6 {
+        5 => {
+            // the whole release (O1) group inserted into the debug pipeline: every pass works on
+            // the IR shapes its predecessors produce (e.g. ccp / cse after mem2reg); a difference
+            // is attributed by leaving one pass out at a time
+            res.count("variant.o1_full");
+            return (1, O1.iter().map(|s| s.to_string()).collect());
+        }
         0 => {
             res.count("variant.single");
             vec![pick(rng)]
@@ -234,7 +241,30 @@ fn run_variant(am: &mut Amortised, case: &Case, base: &Baseline, pos: usize, ext
             (_, Cmp::Agree) => "the baseline is wrong according to the reference interpreter",
             _ => "neither side matches the reference interpreter",
         };
-        res.violation(format!("pass-changes-behaviour:{sig_src:016x}"), format!("[input {k}] passes {extra:?} inserted at {pos}: baseline {} / variant {} ({side})", b.short(), v.short()), replay);
+        // attribution: which single pass, left out of the list, restores the baseline behaviour?
+        let mut culprits: Vec<String> = vec![];
+        if extra.len() >= 4 {
+            let mut distinct: Vec<&String> = vec![];
+            for p in extra {
+                if !distinct.contains(&p) {
+                    distinct.push(p);
+                }
+            }
+            for p in distinct {
+                let without: Vec<String> = extra.iter().filter(|q| *q != p).cloned().collect();
+                let cfg = HookCfg { insert: Some((pos, without)), ..Default::default() };
+                let (r2, _) = with_hook(cfg, false, || catch(AssertUnwindSafe(|| am.compile("gencase", &case.src, Profile::Debug))));
+                if let Ok(Ok(c2)) = r2 {
+                    if run_script(&c2.pkg.bytecode.bytes, data).same_behaviour(b) {
+                        culprits.push(p.clone());
+                    }
+                    am.remove(&c2);
+                } else {
+                    let _ = std::fs::remove_dir_all(am.last_dir());
+                }
+            }
+        }
+        res.violation(format!("pass-changes-behaviour:{sig_src:016x}"), format!("[input {k}] passes {extra:?} inserted at {pos}: baseline {} / variant {} ({side}); leaving out one of {culprits:?} restores the baseline behaviour", b.short(), v.short()), replay);
         break;
     }
     if differs && any_returned && !ran_mod.is_empty() {
